@@ -1843,3 +1843,83 @@ Proof.
     unfold mtranspose. cbn [mnew bits]. apply capb_id. exact Hmb. }
   lia.
 Qed.
+
+(* ------------------------------------------------------------------ histories: the pool of objects *)
+(* the only object a step may modify *)
+Definition step_target (s : pstep) : option nat :=
+  match s with
+  | PIadd i _ | PIsub i _ | PImul i _ | PImatmul i _ | PIpow i _
+  | PSetitemS i _ _ _ | PSetitemM i _ _ _ | PPut i _ _ _ | PSetbits i _ => Some i
+  | _ => None
+  end.
+
+Lemma pset_length p : forall i m, length (pset p i m) = length p.
+Proof. induction p as [|x p IH]; intros [|i] m; cbn [pset length]; try reflexivity. rewrite IH. reflexivity. Qed.
+
+Lemma nth_error_pset_other p : forall i k m, k <> i -> nth_error (pset p i m) k = nth_error p k.
+Proof.
+  induction p as [|x p IH]; intros [|i] [|k] m H; cbn [pset nth_error]; try reflexivity; try congruence.
+  apply IH. congruence.
+Qed.
+
+Lemma nth_error_pset_same p : forall i m, (i < length p)%nat -> nth_error (pset p i m) i = Some m.
+Proof.
+  induction p as [|x p IH]; intros [|i] m H; cbn [pset nth_error length] in *; try lia; try reflexivity.
+  apply IH. lia.
+Qed.
+
+Ltac pool_cases :=
+  repeat match goal with
+         | H : match ?x with _ => _ end = Some _ |- _ => destruct x eqn:?; try discriminate H
+         | H : (if ?x then _ else _) = Some _ |- _ => destruct x eqn:?; try discriminate H
+         | H : Some _ = Some _ |- _ => inversion H; subst; clear H
+         end.
+
+(* FRAME: a step changes at most its documented target; every other object of the pool -- operands
+   included -- is exactly what it was, and at most one new object is appended *)
+Theorem papply_frame p s p' : papply p s = Some p' ->
+  (length p <= length p' <= S (length p))%nat /\
+  forall k, (k < length p)%nat -> step_target s <> Some k -> nth_error p' k = nth_error p k.
+Proof.
+  intros H.
+  assert (A1 : forall m k, (k < length p)%nat -> nth_error (p ++ [m]) k = nth_error p k)
+    by (intros; apply nth_error_app1; assumption).
+  assert (A2 : forall i x m k, (k < length p)%nat -> k <> i ->
+               nth_error (pset p i x ++ [m]) k = nth_error p k).
+  { intros. rewrite nth_error_app1 by (rewrite pset_length; assumption). apply nth_error_pset_other; assumption. }
+  destruct s; cbn [papply step_target] in *;
+    unfold pun, pbin, pupd, pinpl, padd1, if_shape in H; pool_cases;
+    (split; [rewrite ?app_length, ?pset_length; cbn [length]; lia|]);
+    intros k Hk Hne; try reflexivity; try (apply A1; assumption);
+    try (apply A2; [assumption|congruence]);
+    try (apply nth_error_pset_other; congruence).
+Qed.
+
+(* the documented target of an update really holds the new state *)
+Theorem papply_setbits p i b a : nth_error p i = Some a ->
+  exists p', papply p (PSetbits i b) = Some p' /\ nth_error p' i = Some (mset_bits a b) /\ length p' = length p.
+Proof.
+  intros H. cbn [papply]. unfold pupd. rewrite H. eexists. split; [reflexivity|].
+  split; [apply nth_error_pset_same; apply nth_error_Some; congruence|apply pset_length].
+Qed.
+
+(* hstack / vstack / concatenate of ONE matrix build a new object (a copy); the operand stays in place *)
+Theorem papply_stack_one p i a : nth_error p i = Some a ->
+  papply p (PHstack [i]) = Some (p ++ [mcopy a]) /\ papply p (PVstack [i]) = Some (p ++ [mcopy a]) /\
+  papply p (PConcat [i] 0) = Some (p ++ [mcopy a]) /\ papply p (PConcat [i] 1) = Some (p ++ [mcopy a]).
+Proof. intros H. cbn [papply pgets]. rewrite H. repeat split; reflexivity. Qed.
+
+(* an augmented assignment leaves the operator's result in its target and appends a copy of it *)
+Theorem papply_isub p i j a b : nth_error p i = Some a -> nth_error p j = Some b -> same_shape a b = true ->
+  papply p (PIsub i j) = Some (pset p i (inplace_self a (msub a b)) ++ [misub a b]).
+Proof. intros Ha Hb Hs. cbn [papply]. unfold pinpl, if_shape. rewrite Ha, Hb, Hs. reflexivity. Qed.
+
+(* m.bits = k; m.bits = k2 with k <= k2: the elements are the old ones mod 2^k, zero-extended --
+   the bits dropped by the narrowing never come back *)
+Theorem bits_narrow_widen a k k2 i j : 0 <= k <= k2 ->
+  el (mset_bits (mset_bits a k) k2) i j = trunc k (el a i j) /\ bits (mset_bits (mset_bits a k) k2) = k2.
+Proof.
+  intros Hk. destruct (set_bits_correct (mset_bits a k) k2 i j) as [E1 E2].
+  destruct (set_bits_correct a k i j) as [E3 _]. rewrite E1, E3. split; [|exact E2].
+  apply trunc_id. apply (inrange_mono _ k); [lia|]. apply trunc_range. lia.
+Qed.
